@@ -84,6 +84,32 @@ func c19shared(c *run.Ctx) {
 		c.Eval(9)
 		c.Case(fmt.Sprintf("same-credential burst: code successes=%d device successes=%d request_uri successes=%d", okCode, okDev, okPar))
 		c.Count("c19_same_credential_bursts", 1)
+		if round%8 == 0 {
+			// the same root cause reached through a READ-ONLY operation: one access token introspected over HTTP by several
+			// callers at once. The reference store hands every caller the stored request object; with the shipped
+			// fosite.DefaultSession the first GetExtraClaims allocates the session's map lazily, on the shared object.
+			w2 := world.New(world.Opts{SessFactory: func(sub string) fosite.Session { return &fosite.DefaultSession{Subject: sub} }})
+			ca := world.Basic("conf-a", "secret-of-a")
+			tk := w2.Token(url.Values{"grant_type": {"password"}, "username": {world.UserName}, "password": {world.UserPass}, "scope": {"offline fosite"}}, ca)
+			var wg2 sync.WaitGroup
+			start2 := make(chan struct{})
+			var active int64
+			for g := 0; g < 6; g++ {
+				wg2.Add(1)
+				go func() {
+					defer wg2.Done()
+					<-start2
+					if out := w2.IntrospectHTTP(url.Values{"token": {tk.S("access_token")}}, ca, ""); out.Err == nil {
+						atomic.AddInt64(&active, 1)
+					}
+				}()
+			}
+			close(start2)
+			wg2.Wait()
+			c.Eval(6)
+			c.Case(fmt.Sprintf("same-token introspection burst (shipped DefaultSession): answered=%d of 6", active))
+			c.Count("c19_same_token_introspection_bursts", 1)
+		}
 	}
 	c.Sample(map[string]interface{}{"same_credential_bursts": rounds, "goroutines_per_burst": 9})
 }
